@@ -264,6 +264,10 @@ class Index:
     def const_env(self, mod):
         """(name -> value node, names) of the module-level constants visible in `mod` that are bound exactly once where they are defined
         and never rebound in `mod` itself (own definitions and names imported from other modules of the package)"""
+        cache = self.__dict__.setdefault("_const_env", {})
+        if mod in cache:
+            return cache[mod]
+        cache[mod] = ({}, frozenset())          # guards against import cycles while this module is being computed
         consts = {}
         own = self.module_globals(mod)
         single = self.single_assigned(mod)
@@ -278,10 +282,11 @@ class Index:
                 rebound.update(n.names)
         for local, (src_mod, name, level) in self.imports.get(mod, {}).items():
             if level >= 1 and src_mod in self.mods and src_mod != mod and local not in own and local not in rebound:
-                c2, _ = self.const_env(src_mod) if src_mod not in getattr(self, "_ce_busy", set()) else ({}, None)
+                c2, _ = self.const_env(src_mod)
                 if name in c2:
                     consts[local] = c2[name]
-        return consts, frozenset(consts)
+        cache[mod] = (consts, frozenset(consts))
+        return cache[mod]
 
     def module_globals(self, mod, follow=False, _depth=0):
         """module-level simple assignments name -> value node"""
